@@ -1,5 +1,6 @@
 // The simulated command language shared by engine A (in-process simulator, simproc.cc) and engine B
 // (src/rb/vcmd.cc, run by the real ninja binary): parsing of a command line and the content function.
+#include <algorithm>
 #include <stdio.h>
 #include <string.h>
 
@@ -77,6 +78,18 @@ CmdSpec ParseCmd(const string& line) {
     else if (k == "copy") c.copy = v != "0";
     else if (k == "depall") c.depall = v != "0";
     else if (k == "dall") c.dall = v != "0";
+    else if (k == "po") {
+      string t = Unhex(v);
+      size_t a = 0;
+      while (a < t.size()) {
+        size_t b = t.find(';', a);
+        if (b == string::npos) b = t.size();
+        string kv = t.substr(a, b - a);
+        size_t e = kv.find(':');
+        if (e != string::npos) c.per_out[kv.substr(0, e)] = SplitComma(kv.substr(e + 1));
+        a = b + 1;
+      }
+    }
     else if (k == "dsp") {
       string t = Unhex(v);
       size_t a = 0;
@@ -99,7 +112,11 @@ string ContentOf(const CmdSpec& c, const string& out,
   if (c.copy) return reads.empty() ? string() : reads[0].second;
   string key = c.gen ? string("gen") : c.line;
   key += "|rsp=" + rsp_content;
-  for (auto& r : reads) key += "|" + r.first + "=" + r.second;
+  auto po = c.per_out.find(out);
+  for (auto& r : reads) {
+    if (po != c.per_out.end() && std::find(po->second.begin(), po->second.end(), r.first) == po->second.end()) continue;
+    key += "|" + r.first + "=" + r.second;
+  }
   return "H" + Hex64(Fnv(key)) + ":" + out + "\n";
 }
 
